@@ -257,6 +257,9 @@ defrecord('PDA', Q=SET(ATOM), Sigma=SET(ATOM), Gamma=SET(ATOM), delta=MAP(KEY3, 
 defrecord('PDAState', q=ATOM, stack=WORD)
 defrecord('GNFA', Q=SET(ATOM), Sigma=SET(ATOM), delta=MAP(KEY2, REGEXP, 'zero'), q_start=ATOM, q_accept=ATOM, epsilon=ATOM)
 defrecord('IdGen', index=INT)
+defrecord('Alternative', symbols=LIST(ATOM))
+defrecord('Rule', variable=ATOM, alternative=REC('Alternative'))
+defrecord('CFG', V=SET(ATOM), Sigma=SET(ATOM), R=LIST(REC('Rule')), S=ATOM, epsilon=ATOM)
 
 
 def parse_type(s):
